@@ -846,6 +846,16 @@ Proof.
   destruct nm; simpl; [|reflexivity]. destruct in_cmt0; [reflexivity|]. destruct (Nat.ltb n0 p); reflexivity.
 Qed.
 
+Lemma eqxn_reg_fail_r p s1 s2 : eqxn s1 s2 -> eqxn s1 (reg_fail p s2).
+Proof.
+  intro H. destruct s1, s2. unfold eqxn, reg_fail, set_nm, set_pos in *. simpl in *. inversion H; subst.
+  destruct nm0; simpl; [|reflexivity]. destruct in_cmt0; [reflexivity|]. destruct (Nat.ltb n0 p); reflexivity.
+Qed.
+Lemma eqxn_sym s1 s2 : eqxn s1 s2 -> eqxn s2 s1.
+Proof. unfold eqxn. intro H. symmetry. exact H. Qed.
+Lemma eqxn_trans s1 s2 s3 : eqxn s1 s2 -> eqxn s2 s3 -> eqxn s1 s3.
+Proof. unfold eqxn. intros A B. rewrite A. exact B. Qed.
+
 Lemma in_ne o : existsb (Nat.eqb o) ne = true -> In o ne.
 Proof. intro H. apply existsb_exists in H as [x [I E]]. apply Nat.eqb_eq in E. subst. exact I. Qed.
 
@@ -941,6 +951,153 @@ Proof.
            eapply ctx3_trans; [apply ctx3_set_pos|]. eapply ctx3_trans; [apply ctx3_reg_fail|].
            eapply ctx3_trans; [apply eqn_ctx; exact EC | exact CTA].
         -- split; [intros _; apply pos_set_pos|]. unfold nonterminal. rewrite G2, Mb. discriminate.
+Qed.
+
+(* ---------------- one regex match against an ordered choice of two regex matches of the SECOND grammar,
+   each possibly under a unit wrapper sequence (weak mode) *)
+Lemma match_pre_again2 g rec k z r sA rec' k' zB :
+  skipws z = true -> ctx3 sA z -> match_pre g input rec k z = Ok r sA ->
+  eqxn zB sA -> pos zB = pos z ->
+  exists sC, match_pre g input rec' k' zB = Ok RNone sC /\ eqn sC sA.
+Proof.
+  intros Kz (CW & CK & CI) H EX ZP.
+  assert (ZF : ws zB = ws sA /\ skipws zB = skipws sA /\ in_cmt zB = in_cmt sA /\ cpos zB = cpos sA).
+  { clear - EX. destruct zB, sA. unfold eqxn, set_nm, set_pos in EX. simpl in *. inversion EX; subst. repeat split. }
+  destruct ZF as (ZW0 & ZK0 & ZI0 & ZC).
+  assert (ZK : skipws zB = true) by congruence.
+  assert (ZW : ws zB = ws z) by congruence.
+  assert (ZI : in_cmt zB = in_cmt z) by congruence.
+  assert (BACK : forall q, eqn (set_pos (pos sA) (set_pos q zB)) sA).
+  { clear - EX. intro q. destruct zB, sA. unfold eqxn, eqn, set_nm, set_pos in *. simpl in *. inversion EX; subst. reflexivity. }
+  set (q := skip_ws_from (ws z) (skipn (pos z) input) (pos z)).
+  assert (M1 : maybe_skip_ws input z = set_pos q z).
+  { unfold maybe_skip_ws, do_skip_ws. rewrite Kz. reflexivity. }
+  assert (M2 : maybe_skip_ws input zB = set_pos q zB).
+  { unfold maybe_skip_ws, do_skip_ws. rewrite ZK, ZW, ZP. reflexivity. }
+  unfold match_pre in *. rewrite M1 in H. rewrite M2. clear M1 M2.
+  cbn [skipws pos cpos in_cmt set_pos] in *. rewrite Kz in H. rewrite ZK, ZC, ZI.
+  destruct (lookup q (cpos z)) as [p'|] eqn:LK.
+  - inversion H; subst sA. cbn [cpos set_pos]. rewrite LK.
+    eexists. split; [reflexivity|]. apply (BACK q).
+  - destruct (in_cmt z) eqn:IC.
+    + inversion H; subst sA. cbn [cpos set_pos]. rewrite LK.
+      eexists. split; [reflexivity|]. apply (BACK q).
+    + destruct (parse_comments g input rec k (set_pos q z)) as [r2 s2|s2|w] eqn:PC; try discriminate.
+      inversion H; subst sA. cbn [cpos set_cpos]. rewrite lookup_upd.
+      eexists. split; [reflexivity|]. apply (BACK q).
+Qed.
+
+(* what one alternative (a regex match, possibly wrapped) returns, in terms of Match.parse's skipping *)
+Definition alt_res (z : st) (o : nat) (mp res : out) : Prop :=
+  match mp with
+  | Ok _ sA =>
+    match orc o (pos sA) with
+    | Some len => Nat.eqb len 0 = false -> exists v, tt v /\ res = Ok v (set_pos (pos sA + len) sA)
+    | None => exists sF, res = Fail sF /\ eqxn sF sA
+    end
+  | Fail sF => True
+  | Abort w => res = Abort w
+  end.
+
+Lemma alt_shape k o : regex_alt g2 k = Some o ->
+  forall fk z, P2 fk k false z = Abort 0 \/
+  exists fm, fm < fk /\ alt_res z o (match_pre g2 input (P2 fm) fm z) (P2 fk k false z).
+Proof.
+  unfold regex_alt. intros RA fk z. destruct (regex_oid g2 k) as [o'|] eqn:RO.
+  - inversion RA; subst o'. destruct (regex_oid_node g2 k o RO) as (nd & G & K & Su).
+    destruct fk as [|f]; [left; reflexivity|]. right. exists f. split; [lia|].
+    rewrite (parse_match g2 input orc f k nd false z G) by (rewrite K; reflexivity). rewrite K, Su.
+    unfold alt_res. destruct (match_pre g2 input (P2 f) f z) as [r sA|sF|w]; [|exact I|reflexivity].
+    rewrite term_regex. destruct (orc o (pos sA)) as [len|].
+    + intro NZ. rewrite NZ. eexists. split; [apply tt_T | reflexivity].
+    + eexists. split; [reflexivity|]. apply eqxn_reg_fail_l. apply eqxn_refl.
+  - destruct (unit_kid g2 k) as [y|] eqn:U; [|discriminate].
+    unfold unit_kid in U. destruct (seq_kids g2 k) as [[|y' [|? ?]]|] eqn:SK; try discriminate.
+    inversion U; subst y'. destruct (seq_kids_node g2 k [y] SK) as (nd & G & K & Pl & Su & Ki).
+    destruct (regex_oid_node g2 y o RA) as (ny & Gy & Ky & Suy).
+    destruct fk as [|f]; [left; reflexivity|].
+    pose proof (seq_node_cases g2 input orc f k nd false z G K Pl Su) as C. rewrite Ki in C. cbn [seq_loop] in C.
+    destruct f as [|f]; [left; exact C|]. right. exists f. split; [lia|].
+    rewrite (parse_match g2 input orc f y ny true z Gy) in C by (rewrite Ky; reflexivity). rewrite Ky, Suy in C.
+    unfold alt_res. destruct (match_pre g2 input (P2 f) f z) as [r sA|sF|w]; [|exact I|exact C].
+    rewrite term_regex in C. destruct (orc o (pos sA)) as [len|].
+    + intro NZ. rewrite NZ in C. cbn [truthy app] in C. rewrite C.
+      eexists. split; [|reflexivity]. apply post_list_tt; [exact Su | apply accok1; apply tt_T | discriminate].
+    + eexists. split; [exact C|]. apply eqxn_set_pos_l. apply eqxn_set_pos_l. apply eqxn_reg_fail_l. apply eqxn_refl.
+Qed.
+
+Lemma regex_hit_r i j c a b v len t1 t2 s s' psq :
+  get_node g1 i = Some a -> get_node g2 j = Some b -> n_suppress a = n_suppress b ->
+  eqn t1 t2 -> ctx3 t1 s -> tt v ->
+  orelW i j c s s'
+    (Ok (if n_suppress a then RNone else RTree (T i (pos t1) len psq)) (set_pos (pos t1 + len) t1))
+    (Ok (post j b (RList [v])) (set_pos (pos t1 + len) t2)).
+Proof.
+  intros G1 G2 Su E CT TV. right; right. split; [apply eqn_set_pos; exact E|].
+  split; [eapply ctx3_trans; [apply ctx3_set_pos | exact CT]|].
+  destruct (n_suppress a) eqn:Sa.
+  - rewrite (post_suppress j b _ (eq_sym Su)). split; [apply vrel_none|]. split; [intros; apply fnn_none|].
+    split; [intros; apply fnn_none|]. intros d q. rewrite (atrue_unsup ne g1 d i a G1 q) in Sa. discriminate.
+  - assert (T2 : tt (post j b (RList [v]))).
+    { apply post_list_tt; [symmetry; exact Su | apply accok1; exact TV | discriminate]. }
+    split; [apply vrel_tt; [apply tt_T | exact T2]|]. split; [intros; apply fnn_of_tt; apply tt_T|].
+    split; [intros; apply fnn_of_tt; exact T2|]. intros _ _. reflexivity.
+Qed.
+
+Lemma step_regex_choice_r i j c a b o3 fa fb psq1 psq2 s s' :
+  fa + fb <= n -> get_node g1 i = Some a -> get_node g2 j = Some b ->
+  n_kind a = KRegex o3 -> n_kind b = KChoice -> plain b = true -> n_suppress a = n_suppress b ->
+  regex_choice_r g2 ne alts o3 b = true -> eqn s s' -> skipws s = true ->
+  orelW i j c s s' (P1 (S fa) i psq1 s) (P2 (S fb) j psq2 s').
+Proof.
+  intros L G1 G2 Ka Kb Pb Su CR Es Ks. unfold regex_choice_r in CR.
+  destruct (n_kids b) as [|k1 [|k2 [|? ?]]] eqn:Kib; try discriminate.
+  destruct (regex_alt g2 k1) as [o1|] eqn:R1; [|discriminate]. destruct (regex_alt g2 k2) as [o2|] eqn:R2; [|discriminate].
+  apply andb_true_iff in CR as [CR NE2]. apply andb_true_iff in CR as [AL NE1].
+  apply in_alts_In in AL. apply in_ne in NE1. apply in_ne in NE2.
+  assert (Ma : is_match_kind (n_kind a) = true) by (rewrite Ka; reflexivity).
+  assert (Mb : is_match_kind (n_kind b) = false) by (rewrite Kb; reflexivity).
+  assert (Ks' : skipws s' = true) by (destruct (eqn_ctx _ _ Es) as (_ & K & _); congruence).
+  rewrite (parse_match g1 input orc fa i a psq1 s G1 Ma), Ka.
+  rewrite (parse_nonmatch g2 input orc fb j b psq2 s' G2 Mb), (body_choice _ _ _ _ Kb Pb), Kib.
+  cbn [choice_loop].
+  destruct (alt_shape k1 o1 R1 fb s') as [A1|(fm1 & Lm1 & A1)]; [rewrite A1; right; left; reflexivity|].
+  assert (L1 : fa + fm1 <= n) by lia.
+  pose proof (match_pre_simW fa fm1 fa fm1 s s' L1 Es Ks) as Z. unfold alt_res in A1.
+  destruct (match_pre g2 input (P2 fm1) fm1 s') as [r2 sA'|sA'|w2] eqn:MP2.
+  2:{ destruct Z as [Z|[Z|Z]]; [rewrite Z; left; reflexivity | discriminate |].
+      destruct (match_pre g1 input (P1 fa) fa s); contradiction. }
+  2:{ rewrite A1. destruct Z as [Z|[Z|Z]]; [rewrite Z; left; reflexivity | inversion Z; subst; right; left; reflexivity |].
+      destruct (match_pre g1 input (P1 fa) fa s) as [? ?|?|?]; try contradiction. right; right. exact I. }
+  destruct Z as [Z|[Z|Z]]; [rewrite Z; left; reflexivity | discriminate |].
+  destruct (match_pre g1 input (P1 fa) fa s) as [r1 sA|sA|w1]; try contradiction.
+  destruct Z as (EA & CTA). rewrite term_regex. rewrite (Halt o1 o2 o3 (pos sA) AL).
+  rewrite <- (eqn_pos _ _ EA) in A1.
+  assert (CTA' : ctx3 sA' s') by (eapply ctx3_trans; [apply ctx3_sym; apply eqn_ctx; exact EA|];
+                                  eapply ctx3_trans; [exact CTA | apply eqn_ctx; exact Es]).
+  destruct (orc o1 (pos sA)) as [len|] eqn:O1.
+  - destruct (Nat.eqb len 0) eqn:NZ.
+    { apply Nat.eqb_eq in NZ. subst len. exfalso. apply (Hne o1 (pos sA) NE1 O1). }
+    destruct (A1 eq_refl) as (v & TV & RES). rewrite RES. repeat (rewrite (tt_not_none v (proj1 TV)); cbv beta iota).
+    apply (regex_hit_r i j c a b v len sA sA' s s' false G1 G2 Su EA CTA TV).
+  - destruct A1 as (sF & RES & EXF). rewrite RES.
+    destruct (alt_shape k2 o2 R2 fb (set_pos (pos s') sF)) as [A2|(fm2 & Lm2 & A2)]; [rewrite A2; right; left; reflexivity|].
+    destruct (match_pre_again2 g2 (P2 fm1) fm1 s' r2 sA' (P2 fm2) fm2 (set_pos (pos s') sF) Ks' CTA' MP2
+                               (eqxn_set_pos_l _ _ _ EXF) eq_refl) as (sC & MPC & EC).
+    unfold alt_res in A2. rewrite MPC in A2. rewrite (eqn_pos _ _ EC), <- (eqn_pos _ _ EA) in A2.
+    destruct (orc o2 (pos sA)) as [len|] eqn:O2.
+    + destruct (Nat.eqb len 0) eqn:NZ.
+      { apply Nat.eqb_eq in NZ. subst len. exfalso. apply (Hne o2 (pos sA) NE2 O2). }
+      destruct (A2 eq_refl) as (v & TV & RES2). rewrite RES2. repeat (rewrite (tt_not_none v (proj1 TV)); cbv beta iota).
+      apply (regex_hit_r i j c a b v len sA sC s s' false G1 G2 Su); try assumption.
+      eapply eqn_trans; [exact EA | apply eqn_sym; exact EC].
+    + destruct A2 as (sF2 & RES2 & EXF2). rewrite RES2. cbn [choice_loop is_none]. right; right.
+      split.
+      * apply eqxn_reg_fail_l. apply eqxn_set_pos_r. apply eqxn_reg_fail_r. apply eqxn_set_pos_r.
+        apply (eqxn_trans _ sC); [apply eqn_eqxn; eapply eqn_trans; [exact EA | apply eqn_sym; exact EC]|].
+        apply eqxn_sym. exact EXF2.
+      * split; [eapply ctx3_trans; [apply ctx3_reg_fail | exact CTA]|].
+        split; [unfold nonterminal; rewrite G1, Ma; discriminate | intros _; apply pos_set_pos].
 Qed.
 
 Lemma step_structW i j c a b fa fb psq1 psq2 s s' :
@@ -1088,6 +1245,8 @@ Proof.
   - (* KStr *)
     destruct (term_eqb_eq _ _ HK) as [E _].
     apply (step_termW i j c a b fa fb psq1 psq2 s s' L G1 G2); try assumption; rewrite ?Ka, ?Kb; try reflexivity; exact E.
+  - (* KRegex, KChoice: weak mode *)
+    apply (step_regex_choice_r i j c a b oid fa fb psq1 psq2 s s' L G1 G2 Ka Kb Pb Su HK Es Ks).
   - (* KRegex *)
     destruct (term_eqb_eq _ _ HK) as [E _].
     apply (step_termW i j c a b fa fb psq1 psq2 s s' L G1 G2); try assumption; rewrite ?Ka, ?Kb; try reflexivity; exact E.
@@ -1272,4 +1431,16 @@ Lemma tail_form_differs :
   ok_pos (parse g_t2 [120; 44]%N no_orc false 40 1 false (init_st cfg0)) = Some 1 /\
   accepts (run g_t1 cfg0 no_orc false 40 [120; 44]%N) = false /\ accepts (run g_t2 cfg0 no_orc false 40 [120; 44]%N) = false /\
   accepts (run g_t1 cfg0 no_orc false 40 [120; 44; 120]%N) = true /\ accepts (run g_t2 cfg0 no_orc false 40 [120; 44; 120]%N) = true.
+Proof. vm_compute. repeat split. discriminate. Qed.
+
+(* Model: /r2/   against   Model: w=/r0/ | /r1/   (first alternative under a unit wrapper, choice on the second grammar) *)
+Definition g_c3 : grammar :=
+  mkGrammar [mk KSeq [1; 5] true; mk KChoice [2; 4] true; mk KSeq [3] true; mk (KRegex 0) [] false; mk (KRegex 1) [] false;
+             mk KEOF [] false] 0 None.
+
+Lemma witness_alts_r :
+  peg_equiv_diffs_acc [0; 1] [(0, 1, 2)] [] g_c2 g_c3 = [] /\
+  peg_equiv_diffs [0; 1] [] g_c2 g_c3 <> [] /\
+  accepts (run g_c2 cfg0 orc_ex false 30 [98]%N) = true /\ accepts (run g_c3 cfg0 orc_ex false 30 [98]%N) = true /\
+  accepts (run g_c2 cfg0 orc_ex false 30 [98; 98]%N) = false /\ accepts (run g_c3 cfg0 orc_ex false 30 [98; 98]%N) = false.
 Proof. vm_compute. repeat split. discriminate. Qed.
